@@ -124,6 +124,12 @@ pub mod openssl {
         // what kind of key this is: (id, RSA modulus size in bytes, EC curve nid)
         pub ghost struct KeyKind { pub id: Id, pub rsa_size: u32, pub curve: Option<super::nid::Nid> }
         pub struct PKey<T> { pub kind: Ghost<KeyKind>, pub ident: Ghost<int>, pub p: Option<T> }
+        // PKey::hmac(key): a MAC key; which one is a function of the key bytes
+        pub uninterp spec fn hmac_ident(key: Seq<u8>) -> int;
+        impl PKey<Private> {
+            #[verifier::external_body]
+            pub fn hmac(key: &[u8]) -> (r: Result<PKey<Private>, ErrorStack>) ensures r matches Ok(k) ==> k.ident@ == hmac_ident(key@) { unimplemented!() }
+        }
         // which (id, size, curve) combinations OpenSSL can hand back for a parsed private key
         pub open spec fn kind_consistent(k: KeyKind) -> bool {
             (k.id == Id::RSA ==> k.curve is None) && (k.id == Id::EC ==> k.rsa_size == 0)
@@ -147,6 +153,18 @@ pub mod openssl {
             pub fn ec_key(&self) -> (r: Result<super::ec::EcKey<T>, ErrorStack>)
                 ensures (self.kind@.id == Id::EC ==> r is Ok), (r matches Ok(k) ==> k.curve@ == self.kind@.curve && k.ident == self.ident) { unimplemented!() }
         }
+        }
+    }
+    pub mod sha {
+        use vstd::prelude::*;
+        verus! {
+        // openssl::sha::sha256 / sha384 / sha512: the SHA-2 digest of that width
+        pub uninterp spec fn sha2(bits: int, data: Seq<u8>) -> Seq<u8>;
+        #[verifier::external_body] pub fn sha256(data: &[u8]) -> (r: [u8; 32]) ensures r@ == sha2(256, data@) { unimplemented!() }
+        #[verifier::external_body] pub fn sha384(data: &[u8]) -> (r: [u8; 48]) ensures r@ == sha2(384, data@) { unimplemented!() }
+        #[verifier::external_body] pub fn sha512(data: &[u8]) -> (r: [u8; 64]) ensures r@ == sha2(512, data@) { unimplemented!() }
+        // [u8; N]::to_vec()
+        #[verifier::external_body] pub fn digest_to_vec<const N: usize>(a: [u8; N]) -> (r: Vec<u8>) ensures r@ == a@ { unimplemented!() }
         }
     }
     pub mod sign {
